@@ -110,6 +110,13 @@ class Scripted(ciw.dists.Distribution):
         return 'Scripted(%s,%s,%s)' % (self.kind, self.node, self.cls)
 
 
+def capv(x):
+    """capacity / count -> int or 'inf' (never scaled)."""
+    if isinstance(x, float) and math.isinf(x):
+        return 'inf'
+    return int(x)
+
+
 def cid(c):
     """class name -> index in the sorted class-name list (Ciw's own order)."""
     return OBS.classes.index(c)
@@ -170,7 +177,7 @@ class TMix:
         OBS.stack.append((name, s.id_number))
 
     def accept(s, ind, completed=False):
-        OBS.ev('Enter', s.id_number, ind.id_number, s.number_of_individuals, tk(s.node_capacity),
+        OBS.ev('Enter', s.id_number, ind.id_number, s.number_of_individuals, capv(s.node_capacity),
                ind.priority_class, tuple(n for n, _ in OBS.stack), cid(ind.customer_class))
         s._w('accept')
         try:
@@ -190,7 +197,7 @@ class TMix:
 
     def block_individual(s, ind, next_node):
         OBS.ev('Block', s.id_number, ind.id_number, next_node.id_number, next_node.number_of_individuals,
-               tk(next_node.node_capacity), [tuple(b) for b in next_node.blocked_queue], iid(ind.server))
+               capv(next_node.node_capacity), [tuple(b) for b in next_node.blocked_queue], iid(ind.server))
         s._w('block')
         try:
             return super().block_individual(ind, next_node)
@@ -199,7 +206,7 @@ class TMix:
 
     def release_blocked_individual(s):
         OBS.ev('UnblockTry', s.id_number, [tuple(b) for b in s.blocked_queue], s.len_blocked_queue,
-               s.number_of_individuals, tk(s.node_capacity))
+               s.number_of_individuals, capv(s.node_capacity))
         s._w('unblock')
         try:
             return super().release_blocked_individual()
@@ -427,7 +434,7 @@ class TArr(ciw.ArrivalNode):
 
     def release_individual(s, next_node, ind):
         OBS.ev('Spawn', next_node.id_number, ind.id_number, cid(ind.customer_class), next_node.number_of_individuals,
-               tk(next_node.node_capacity), s.simulation.number_of_individuals, tk(s.system_capacity),
+               capv(next_node.node_capacity), s.simulation.number_of_individuals, capv(s.system_capacity),
                s.number_of_individuals)
         return super().release_individual(next_node, ind)
 
@@ -525,8 +532,7 @@ def snap_server(s):
 
 
 def snap_node(n):
-    d = {'id': n.id_number, 'c': tk(float(n.c)) if isinstance(n.c, float) else n.c,
-         'cap': tk(float(n.node_capacity)) if isinstance(n.node_capacity, float) else n.node_capacity,
+    d = {'id': n.id_number, 'c': capv(n.c), 'cap': capv(n.node_capacity),
          'pop': n.number_of_individuals, 'insvc': n.number_in_service,
          'queues': [[i.id_number for i in q] for q in n.individuals],
          'bq': [tuple(b) for b in n.blocked_queue], 'lenbq': n.len_blocked_queue,
@@ -539,8 +545,6 @@ def snap_node(n):
          }
     ni = getattr(n, 'next_individual', None)
     d['next_inds'] = [iid(i) for i in ni] if isinstance(ni, list) else ([iid(ni)] if ni is not None else [])
-    d['c'] = 'inf' if d['c'] == 'inf' else n.c
-    d['cap'] = 'inf' if d['cap'] == 'inf' else n.node_capacity
     d['servers'] = [snap_server(s) for s in n.servers] if hasattr(n, 'servers') else None
     if n.schedule is not None:
         sch = n.schedule
